@@ -40,13 +40,31 @@ def _none_test_of(n):
     return None
 
 
+def slot_aliases(fn):
+    """single-assignment locals that merely hold a slot:  cached = self.A   ->  {cached: A}"""
+    count, cand = {}, {}
+    for n in walk_no_nested(fn):
+        if isinstance(n, (ast.Assign, ast.AugAssign, ast.For)):
+            tgts = n.targets if isinstance(n, ast.Assign) else [n.target]
+            for t in tgts:
+                for x in _bound_names(t):
+                    count[x] = count.get(x, 0) + 1
+            if isinstance(n, ast.Assign) and len(n.targets) == 1 and isinstance(n.targets[0], ast.Name) and _is_self_attr(n.value):
+                cand[n.targets[0].id] = n.value.attr
+    return {x: a for x, a in cand.items() if count.get(x) == 1}
+
+
 def memo_slots(fn):
     """attributes of self that the method both tests against None and assigns a computed (non-constant) value"""
     tested, written = set(), {}
+    alias = slot_aliases(fn)
     for n in walk_no_nested(fn):
         a = _none_test_of(n)
         if a:
             tested.add(a)
+        if isinstance(n, ast.Compare) and len(n.ops) == 1 and isinstance(n.ops[0], (ast.Is, ast.IsNot)) and isinstance(n.left, ast.Name) and n.left.id in alias and \
+                isinstance(n.comparators[0], ast.Constant) and n.comparators[0].value is None:
+            tested.add(alias[n.left.id])
         if isinstance(n, ast.Assign):
             for t in n.targets:
                 if _is_self_attr(t) and not isinstance(n.value, ast.Constant):
@@ -104,10 +122,18 @@ def memo_check(fn, attr, stores):
         return pdeps, []
     events = []
 
+    alias = {x for x, a in slot_aliases(fn).items() if a == attr}
+
+    def is_slot(x):
+        return (_is_self_attr(x, attr) or (isinstance(x, ast.Name) and x.id in alias)) and isinstance(x.ctx, ast.Load)
+
     def reads_slot(node):
-        tests = {id(x.left) for x in ast.walk(node) if _none_test_of(x)}
+        if isinstance(node, ast.Assign) and len(node.targets) == 1 and isinstance(node.targets[0], ast.Name) and node.targets[0].id in alias:
+            return False            # copying the slot into its alias is not yet a use
+        tests = {id(x.left) for x in ast.walk(node) if isinstance(x, ast.Compare) and len(x.ops) == 1 and isinstance(x.ops[0], (ast.Is, ast.IsNot))
+                 and isinstance(x.comparators[0], ast.Constant) and x.comparators[0].value is None}
         for x in ast.walk(node):
-            if _is_self_attr(x, attr) and isinstance(x.ctx, ast.Load) and id(x) not in tests:
+            if is_slot(x) and id(x) not in tests:
                 return True
         return False
 
@@ -190,4 +216,612 @@ def rule_memo(ctx):
     _memo_eval(pr, pcls.name, pcls.body[0], 'pc')
     r.positive_control({f.construct for f in pr.findings} == {'PyrexTypes.CIntLike.convert_to_pystring:to_pyunicode_utility:use'},
                        'memo read without a test of name_type')
+    return r
+
+
+# =================================================================================================== C18-STRNONE
+class NeedDecision(Exception):
+    pass
+
+
+class Unmodelled(Exception):
+    pass
+
+
+class Const:
+    __slots__ = ('v',)
+
+    def __init__(self, v):
+        self.v = v
+
+    def __repr__(self):
+        return 'Const(%r)' % (self.v,)
+
+
+class Obj:
+    """opaque object identified by the access path it was reached through"""
+    __slots__ = ('path',)
+
+    def __init__(self, path):
+        self.path = path
+
+    def __repr__(self):
+        return 'Obj(%s)' % self.path
+
+
+class Text:
+    """a string being assembled for emission; `marks` = provenance marks of the parts it was built from"""
+    __slots__ = ('marks',)
+
+    def __init__(self, marks=()):
+        self.marks = frozenset(marks)
+
+
+class PyList:
+    __slots__ = ('items',)
+
+    def __init__(self, items):
+        self.items = list(items)
+
+
+class _Return(Exception):
+    def __init__(self, value):
+        self.value = value
+
+
+class Run:
+    """One execution of a function under a (lazily extended) valuation of its opaque tests."""
+
+    def __init__(self, decisions, attr_values, class_consts, inline, marks_of_call):
+        self.decisions = list(decisions)
+        self.cursor = 0
+        self.val = {}                 # atom key -> bool, in decision order
+        self.attr_values = attr_values    # access path -> Const   (scenario: e.g. self.conversion_char)
+        self.class_consts = class_consts  # access path -> Const   (class-level defaults, until stored)
+        self.stored = {}              # access path -> value      (attribute stores during the run)
+        self.inline = inline          # method name -> FunctionDef (interpreted instead of being opaque)
+        self.marks_of_call = marks_of_call    # callable(method name, [arg values]) -> marks or None
+        self.events = []              # ('emit', marks)
+        self.depth = 0
+
+    # ---------------------------------------------------------------- atoms
+    def decide(self, key):
+        if key in self.val:
+            return self.val[key]
+        # truthiness and `is None` of one object are linked
+        if key.startswith('T:') and self.val.get('N:' + key[2:]) is True:
+            self.val[key] = False
+            return False
+        if key.startswith('N:') and self.val.get('T:' + key[2:]) is True:
+            self.val[key] = False
+            return False
+        if self.cursor >= len(self.decisions):
+            raise NeedDecision(key)
+        v = self.decisions[self.cursor]
+        self.cursor += 1
+        self.val[key] = v
+        return v
+
+    def truth(self, v):
+        if isinstance(v, Const):
+            return bool(v.v)
+        if isinstance(v, Text):
+            return True
+        if isinstance(v, PyList):
+            return bool(v.items)
+        if isinstance(v, tuple):
+            return bool(v)
+        if isinstance(v, Obj):
+            if v.path.startswith('new:'):
+                return True
+            return self.decide('T:' + v.path)
+        raise Unmodelled('truth of %r' % (v,))
+
+    # ---------------------------------------------------------------- expressions
+    def ev(self, n, env):
+        m = getattr(self, 'ev_' + type(n).__name__, None)
+        if m is None:
+            raise Unmodelled('expression %s' % type(n).__name__)
+        return m(n, env)
+
+    def ev_Constant(self, n, env):
+        return Const(n.value)
+
+    def ev_Name(self, n, env):
+        if n.id in env:
+            return env[n.id]
+        return Obj(n.id)
+
+    def load_attr(self, base, attr):
+        if isinstance(base, Obj):
+            path = '%s.%s' % (base.path, attr)
+            if path in self.stored:
+                return self.stored[path]
+            if path in self.attr_values:
+                return self.attr_values[path]
+            if path in self.class_consts:
+                return self.class_consts[path]
+            return Obj(path)
+        if isinstance(base, Const) and base.v is None:
+            raise Unmodelled('attribute %s of None' % attr)
+        return Obj('?.%s' % attr)
+
+    def ev_Attribute(self, n, env):
+        return self.load_attr(self.ev(n.value, env), n.attr)
+
+    def ev_Tuple(self, n, env):
+        return tuple(self.ev(e, env) for e in n.elts)
+
+    def ev_List(self, n, env):
+        return PyList(self.ev(e, env) for e in n.elts)
+
+    def ev_Dict(self, n, env):
+        for v in n.values:
+            self.ev(v, env)
+        return Obj('new:dict')
+
+    def ev_IfExp(self, n, env):
+        return self.ev(n.body if self.truth(self.ev(n.test, env)) else n.orelse, env)
+
+    def ev_UnaryOp(self, n, env):
+        v = self.ev(n.operand, env)
+        if isinstance(n.op, ast.Not):
+            return Const(not self.truth(v))
+        raise Unmodelled('unary operator')
+
+    def ev_BoolOp(self, n, env):
+        is_and = isinstance(n.op, ast.And)
+        v = None
+        for e in n.values:
+            v = self.ev(e, env)
+            if self.truth(v) != is_and:
+                return v
+        return v
+
+    def _marks(self, v):
+        if isinstance(v, Text):
+            return v.marks
+        if isinstance(v, tuple):
+            out = frozenset()
+            for x in v:
+                out |= self._marks(x)
+            return out
+        return frozenset()
+
+    def ev_BinOp(self, n, env):
+        a, b = self.ev(n.left, env), self.ev(n.right, env)
+        if isinstance(n.op, (ast.Mod, ast.Add)):
+            return Text(self._marks(a) | self._marks(b))
+        raise Unmodelled('binary operator')
+
+    def ev_JoinedStr(self, n, env):
+        marks = frozenset()
+        for v in n.values:
+            if isinstance(v, ast.FormattedValue):
+                marks |= self._marks(self.ev(v.value, env))
+        return Text(marks)
+
+    def ev_Subscript(self, n, env):
+        v = self.ev(n.value, env)
+        i = self.ev(n.slice, env) if not isinstance(n.slice, ast.Slice) else None
+        if isinstance(v, (PyList, tuple)) and isinstance(i, Const) and isinstance(i.v, int):
+            items = v.items if isinstance(v, PyList) else v
+            if -len(items) <= i.v < len(items):
+                return items[i.v]
+            raise Unmodelled('index out of range')
+        if isinstance(v, Obj):
+            return Obj('%s[%s]' % (v.path, ast.unparse(n.slice)))
+        raise Unmodelled('subscript')
+
+    def ev_Compare(self, n, env):
+        left = self.ev(n.left, env)
+        for op, c in zip(n.ops, n.comparators):
+            right = self.ev(c, env)
+            if not self.compare(op, left, right):
+                return Const(False)
+            left = right
+        return Const(True)
+
+    def compare(self, op, a, b):
+        neg = isinstance(op, (ast.IsNot, ast.NotEq, ast.NotIn))
+        if isinstance(op, (ast.Is, ast.IsNot, ast.Eq, ast.NotEq)):
+            if isinstance(a, Const) and isinstance(b, Const):
+                r = (a.v is b.v or a.v == b.v) if isinstance(op, (ast.Is, ast.IsNot)) else (a.v == b.v)
+            elif isinstance(a, Obj) and isinstance(b, Obj):
+                if a.path == b.path:
+                    r = True
+                else:
+                    r = self.decide('%s:%s' % ('IS' if isinstance(op, (ast.Is, ast.IsNot)) else 'EQ', '|'.join(sorted((a.path, b.path)))))
+            elif isinstance(a, Obj) or isinstance(b, Obj):
+                o, c = (a, b) if isinstance(a, Obj) else (b, a)
+                if not isinstance(c, Const):
+                    raise Unmodelled('comparison of %r and %r' % (a, b))
+                if o.path.startswith('new:'):
+                    r = False
+                elif c.v is None:
+                    r = self.decide('N:' + o.path)
+                else:
+                    r = self.decide('EQ:%s|%r' % (o.path, c.v))
+            else:
+                r = False
+            return (not r) if neg else r
+        if isinstance(op, (ast.In, ast.NotIn)):
+            if isinstance(a, Const) and isinstance(b, Const) and isinstance(b.v, str) and isinstance(a.v, str):
+                r = a.v in b.v
+            elif isinstance(a, Const) and isinstance(b, (tuple, PyList)):
+                items = b.items if isinstance(b, PyList) else b
+                if not all(isinstance(x, Const) for x in items):
+                    raise Unmodelled('membership in a non-constant sequence')
+                r = any(x.v == a.v for x in items)
+            elif isinstance(a, Const) and a.v is None and isinstance(b, Const) and isinstance(b.v, str):
+                raise Unmodelled('None in str')
+            else:
+                raise Unmodelled('membership test of %r in %r' % (a, b))
+            return (not r) if neg else r
+        if isinstance(a, Const) and isinstance(b, Const):
+            try:
+                return {ast.Lt: a.v < b.v, ast.LtE: a.v <= b.v, ast.Gt: a.v > b.v, ast.GtE: a.v >= b.v}[type(op)]
+            except (TypeError, KeyError):
+                raise Unmodelled('ordering comparison')
+        raise Unmodelled('ordering comparison of opaque values')
+
+    def ev_Call(self, n, env):
+        f = n.func
+        args = [self.ev(a, env) for a in n.args]
+        kwargs = {k.arg: self.ev(k.value, env) for k in n.keywords}
+        if isinstance(f, ast.Name):
+            if f.id == 'len' and len(args) == 1 and isinstance(args[0], (PyList, tuple)):
+                return Const(len(args[0].items if isinstance(args[0], PyList) else args[0]))
+            if f.id in ('isinstance', 'hasattr', 'getattr'):
+                return Obj('%s(%s)' % (f.id, ', '.join(ast.unparse(a) for a in n.args)))
+            return Obj('new:%s' % f.id)
+        if isinstance(f, ast.Attribute):
+            recv = self.ev(f.value, env)
+            if isinstance(recv, Obj) and recv.path == 'self' and f.attr in self.inline:
+                return self.call_function(self.inline[f.attr], [recv] + args, kwargs)
+            marks = self.marks_of_call(f.attr, args)
+            if marks is not None:
+                return Text(marks)
+            if f.attr in ('putln', 'put'):
+                m = frozenset()
+                for a in args:
+                    m |= self._marks(a)
+                self.events.append(('emit', m))
+                return Const(None)
+            if isinstance(recv, Obj):
+                if recv.path.split('.')[0][:1].isupper() or recv.path.startswith('new:'):
+                    # Module.Class(...) / Class.method(...): a fresh object
+                    return Obj('new:%s.%s' % (recv.path, f.attr))
+                return Obj('%s.%s()' % (recv.path, f.attr))
+            if isinstance(recv, Text):
+                return Text(recv.marks)
+            return Obj('?.%s()' % f.attr)
+        raise Unmodelled('call')
+
+    # ---------------------------------------------------------------- statements
+    def call_function(self, fn, args, kwargs=None):
+        self.depth += 1
+        if self.depth > 3:
+            raise Unmodelled('recursion')
+        env = {}
+        params = [a.arg for a in fn.args.args]
+        defaults = fn.args.defaults
+        for i, p in enumerate(params):
+            if i < len(args):
+                env[p] = args[i]
+            elif kwargs and p in kwargs:
+                env[p] = kwargs[p]
+            else:
+                j = i - (len(params) - len(defaults))
+                env[p] = self.ev(defaults[j], {}) if j >= 0 else Obj(p)
+        try:
+            self.block(fn.body, env)
+            result = Const(None)
+        except _Return as r:
+            result = r.value
+        self.depth -= 1
+        return result
+
+    def block(self, stmts, env):
+        for s in stmts:
+            self.stmt(s, env)
+
+    def assign(self, target, value, env):
+        if isinstance(target, ast.Name):
+            env[target.id] = value
+        elif isinstance(target, (ast.Tuple, ast.List)):
+            if not isinstance(value, tuple) or len(value) != len(target.elts):
+                for t in target.elts:
+                    self.assign(t, Obj('?unpacked'), env)
+                return
+            for t, v in zip(target.elts, value):
+                self.assign(t, v, env)
+        elif isinstance(target, ast.Attribute):
+            base = self.ev(target.value, env)
+            if isinstance(base, Obj):
+                path = '%s.%s' % (base.path, target.attr)
+                if isinstance(value, Obj) and (value.path == path or value.path.startswith(path + '.')):
+                    return          # x.a = x.a.analyse_types(env) / .coerce_to_pyobject(env): still "the operand x.a"
+                self.stored[path] = value
+        elif isinstance(target, ast.Subscript):
+            self.ev(target.value, env)
+        else:
+            raise Unmodelled('assignment target')
+
+    def stmt(self, s, env):
+        if isinstance(s, ast.Assign):
+            v = self.ev(s.value, env)
+            for t in s.targets:
+                self.assign(t, v, env)
+        elif isinstance(s, ast.AugAssign):
+            cur = self.ev(s.target, env)
+            v = self.ev(s.value, env)
+            if isinstance(s.op, ast.Add):
+                self.assign(s.target, Text(self._marks(cur) | self._marks(v)), env)
+            else:
+                raise Unmodelled('augmented assignment')
+        elif isinstance(s, ast.AnnAssign):
+            if s.value is not None:
+                self.assign(s.target, self.ev(s.value, env), env)
+        elif isinstance(s, ast.If):
+            self.block(s.body if self.truth(self.ev(s.test, env)) else s.orelse, env)
+        elif isinstance(s, ast.Return):
+            raise _Return(self.ev(s.value, env) if s.value is not None else Const(None))
+        elif isinstance(s, ast.Expr):
+            if not (isinstance(s.value, ast.Constant) and isinstance(s.value.value, str)):
+                self.ev(s.value, env)
+        elif isinstance(s, ast.Assert):
+            self.truth(self.ev(s.test, env))      # a failing assert is an internal error, not an outcome
+        elif isinstance(s, ast.Pass):
+            pass
+        else:
+            raise Unmodelled('statement %s' % type(s).__name__)
+
+
+def explore(fn, args, attr_values, class_consts, inline, marks_of_call, max_runs=4000):
+    """All executions of fn -> [(valuation dict, return value, events)]"""
+    out = []
+    stack = [[]]
+    while stack:
+        dec = stack.pop()
+        run = Run(dec, attr_values, class_consts, inline, marks_of_call)
+        try:
+            ret = run.call_function(fn, args)
+        except NeedDecision:
+            stack.append(dec + [True])
+            stack.append(dec + [False])
+            if len(stack) + len(out) > max_runs:
+                raise AnalysisError('%s: too many paths' % fn.name)
+            continue
+        except Unmodelled as ex:
+            raise AnalysisError('%s: cannot be interpreted: %s' % (fn.name, ex))
+        out.append((dict(run.val), ret, run.events))
+    return out
+
+
+import re as _re
+PYSTR_ATOM = _re.compile(r'^T:(?P<op>.+?)\.type(?:\.resolve\(\))?\.is_pystr_type$')
+PYSTR_IS_ATOM = _re.compile(r'^IS:(?:(?P<a>.+?)\.type(?:\.resolve\(\))?\|[\w.]*(?:unicode|str)_type|[\w.]*(?:unicode|str)_type\|(?P<b>.+?)\.type(?:\.resolve\(\))?)$')
+NONE_ATOM = _re.compile(r'^T:(?P<op>.+?)\.may_be_none\(\)$')
+
+
+def operand_facts(val, operand):
+    """-> (statically str established?, None excluded?) for the operand path on this run"""
+    is_str = none_excluded = False
+    for k, v in val.items():
+        m = PYSTR_ATOM.match(k)
+        if m and m.group('op') == operand and v is True:
+            is_str = True
+        m = PYSTR_IS_ATOM.match(k)
+        if m and (m.group('a') or m.group('b')) == operand and v is True:
+            is_str = True
+        m = NONE_ATOM.match(k)
+        if m and m.group('op') == operand and v is False:
+            none_excluded = True
+    return is_str, none_excluded
+
+
+def _class_consts(cls, prefix):
+    out = {}
+    for n in cls.body:
+        if isinstance(n, ast.Assign) and isinstance(n.value, ast.Constant):
+            for t in n.targets:
+                if isinstance(t, ast.Name):
+                    out['%s.%s' % (prefix, t.id)] = Const(n.value.value)
+    return out
+
+
+def _find_class(tree, name, rel):
+    for n in tree.body:
+        if isinstance(n, ast.ClassDef) and n.name == name:
+            return n
+    raise AnalysisError('%s: class %s not found' % (rel, name))
+
+
+def _find_method(cls, name, rel):
+    hit = None
+    for n in cls.body:
+        if isinstance(n, ast.FunctionDef) and n.name == name:
+            hit = n
+        if isinstance(n, ast.Assign) and any(isinstance(t, ast.Name) and t.id == name for t in n.targets) and isinstance(n.value, ast.Name):
+            return _find_method(cls, n.value.id, rel)
+    if hit is None:
+        raise AnalysisError('%s: %s.%s not found' % (rel, cls.name, name))
+    return hit
+
+
+def conversion_domain(cls):
+    """conversion characters FormattedValueNode knows (keys of its find_conversion_func table) + None"""
+    for n in cls.body:
+        if isinstance(n, ast.Assign) and any(isinstance(t, ast.Name) and t.id == 'find_conversion_func' for t in n.targets):
+            d = n.value.value if isinstance(n.value, ast.Attribute) else n.value
+            if isinstance(d, ast.Dict) and all(isinstance(k, ast.Constant) for k in d.keys):
+                return [None] + [k.value for k in d.keys]
+    raise AnalysisError('FormattedValueNode.find_conversion_func table not found')
+
+
+def _conv_marks(name, args):
+    if name == 'find_conversion_func' and len(args) == 1:
+        if isinstance(args[0], Const) and args[0].v is not None:
+            return {'CONV'}
+        if isinstance(args[0], Const):
+            return set()
+        raise Unmodelled('find_conversion_func of a non-constant')
+    return None
+
+
+def strnone_cases(fv_cls, opt_cls, convs):
+    """-> [(key, sample, problem or None)] over all (function, conversion character, path) cases"""
+    out = []
+    why = ("a value statically typed str may be None at run time and str(None) is 'None': the conversion may only be dropped for conversion !s / none, "
+           "a statically-str operand AND after may_be_none() was excluded")
+
+    def describe(val):
+        def one(k, v):
+            kind, path = k.split(':', 1)
+            if kind == 'N':
+                return '%s is %sNone' % (path, '' if v else 'not ')
+            if kind == 'T':
+                return '%s%s' % ('' if v else 'not ', path)
+            return '%s(%s)=%s' % (kind, path, v)
+        return ', '.join(one(k, v) for k, v in val.items()) or 'no tests'
+    # T1: FormattedValueNode.analyse_types -> returns the node, or the bare operand
+    fn = _find_method(fv_cls, 'analyse_types', EXPRNODES)
+    cc = _class_consts(fv_cls, 'self')
+    for conv in convs:
+        runs = explore(fn, [Obj('self'), Obj('env')], {'self.conversion_char': Const(conv)}, cc, {}, _conv_marks)
+        for val, ret, events in runs:
+            bare = isinstance(ret, Obj) and ret.path == 'self.value'
+            key = 'ExprNodes.FormattedValueNode.analyse_types:conv=%s' % conv
+            prob = None
+            if bare:
+                is_str, no_none = operand_facts(val, 'self.value')
+                spec = val.get('T:self.format_spec')
+                if conv not in (None, 's'):
+                    prob = 'returns the bare operand although the conversion !%s must be applied' % conv
+                elif spec is not False:
+                    prob = 'returns the bare operand on a path that did not exclude a format spec'
+                elif not (is_str and no_none):
+                    prob = 'returns the bare operand (no str() / format() call at all) on a path with %s; %s' % (describe(val), why)
+            out.append((key, 'analyse_types conv=%r: %s -> %s' % (conv, describe(val), 'bare operand' if bare else 'node kept'), prob, fn.lineno, EXPRNODES))
+    # T2: FormattedValueNode.generate_result_code -> emitted call wraps the operand in the conversion function or not
+    fn = _find_method(fv_cls, 'generate_result_code', EXPRNODES)
+    for conv in convs:
+        runs = explore(fn, [Obj('self'), Obj('code')], {'self.conversion_char': Const(conv)}, {}, {}, _conv_marks)
+        for val, ret, events in runs:
+            emits = [m for k, m in events if k == 'emit']
+            if not emits:
+                raise AnalysisError('FormattedValueNode.generate_result_code: a path emits nothing (%s)' % describe(val))
+            c_level = any(k.startswith('T:self.value.type.is_pyobject') and v is False for k, v in val.items())
+            wrapped = any('CONV' in m for m in emits)
+            key = 'ExprNodes.FormattedValueNode.generate_result_code:conv=%s' % conv
+            prob = None
+            if not c_level and conv is not None and not wrapped:
+                is_str, no_none = operand_facts(val, 'self.value')
+                if conv != 's':
+                    prob = 'emits the format call without the !%s conversion' % conv
+                elif not (is_str and no_none):
+                    prob = ('emits __Pyx_PyObject_Format*(value, spec) without piping the value through PyObject_Str on a path with %s: for a None value '
+                            'NoneType.__format__ raises TypeError for a non-empty spec (CPython formats the text \'None\'); %s' % (describe(val), why))
+            out.append((key, 'generate_result_code conv=%r: %s -> %s' % (conv, describe(val), 'C level' if c_level else ('converted' if wrapped else 'not converted')), prob, fn.lineno, EXPRNODES))
+    # T3: the str()/unicode() call optimisation returns its argument unchanged
+    fn3 = _find_method(opt_cls, '_handle_simple_function_unicode', OPTIMIZE)
+    runs = explore(fn3, [Obj('self'), Obj('node'), Obj('function'), PyList([Obj('arg0')])], {}, {}, {}, _conv_marks)
+    for val, ret, events in runs:
+        bare = isinstance(ret, Obj) and ret.path == 'arg0'
+        prob = None
+        if bare:
+            is_str, no_none = operand_facts(val, 'arg0')
+            if not (is_str and no_none):
+                prob = 'str(x) is replaced by x itself on a path with %s; %s' % (describe(val), why)
+        out.append(('Optimize.OptimizeBuiltinCalls.%s:str(x)' % fn3.name, 'str(x): %s -> %s' % (describe(val), 'x itself' if bare else 'call kept'), prob, fn3.lineno, OPTIMIZE))
+    # T4: OptimizeBuiltinCalls.visit_FormattedValueNode replaces the node by the str() optimisation
+    fn4 = _find_method(opt_cls, 'visit_FormattedValueNode', OPTIMIZE)
+    for conv in convs:
+        runs = explore(fn4, [Obj('self'), Obj('node')], {'node.conversion_char': Const(conv)}, {}, {fn3.name: fn3, '_handle_simple_function_unicode': fn3, '_handle_simple_function_str': fn3}, _conv_marks)
+        for val, ret, events in runs:
+            kept = isinstance(ret, Obj) and ret.path == 'node'
+            bare = isinstance(ret, Obj) and ret.path == 'node.value'
+            key = 'Optimize.OptimizeBuiltinCalls.visit_FormattedValueNode:conv=%s' % conv
+            prob = None
+            if not kept:
+                is_str, no_none = operand_facts(val, 'node.value')
+                if conv not in (None, 's'):
+                    prob = 'replaces the formatted value by str(value) although the conversion is !%s' % conv
+                elif val.get('T:node.format_spec') is not False:
+                    prob = 'replaces the formatted value by str(value) on a path that did not exclude a format spec'
+                elif bare and not (is_str and no_none):
+                    prob = 'replaces f"{x}" by x itself on a path with %s; %s' % (describe(val), why)
+            out.append((key, 'visit_FormattedValueNode conv=%r: %s -> %s' % (conv, describe(val), 'node kept' if kept else ('bare operand' if bare else 'str() call')), prob, fn4.lineno, OPTIMIZE))
+    return out
+
+
+STRNONE_POSITIVE = '''
+class FormattedValueNode:
+    c_format_spec = None
+    find_conversion_func = {'s': 'PyObject_Str', 'r': 'PyObject_Repr'}.get
+    def analyse_types(self, env):
+        self.value = self.value.analyse_types(env)
+        if not self.format_spec and (not self.conversion_char or self.conversion_char == 's'):
+            if self.value.type.is_pystr_type:
+                return self.value
+        return self
+    def generate_result_code(self, code):
+        value_result = self.value.py_result()
+        value_is_unicode = self.value.type.is_pystr_type
+        conversion_char = self.conversion_char
+        if conversion_char == 's' and value_is_unicode:
+            conversion_char = None
+        if conversion_char:
+            fn = self.find_conversion_func(conversion_char)
+            value_result = '%s(%s)' % (fn, value_result)
+        code.putln("%s = f(%s);" % (self.result(), value_result))
+
+class OptimizeBuiltinCalls:
+    def _handle_simple_function_unicode(self, node, function, pos_args):
+        arg = pos_args[0]
+        if arg.type.is_pystr_type:
+            if not arg.may_be_none():
+                return arg
+        return ExprNodes.PythonCapiCallNode(node.pos, "f", args=pos_args)
+    def visit_FormattedValueNode(self, node):
+        if node.value.type.is_pystr_type and not node.format_spec:
+            return self._handle_simple_function_unicode(node, None, [node.value])
+        return node
+'''
+
+
+def rule_strnone(ctx):
+    r = Rule('C18-STRNONE', 'the !s / str() conversion of a formatted value is dropped only for conversion !s / none on a statically-str operand whose may_be_none() was '
+             'excluded (decision tables of FormattedValueNode.analyse_types / generate_result_code and of the str() optimisation, over all valuations of their tests)', floor=14)
+    fv = _find_class(ctx.parse(EXPRNODES), 'FormattedValueNode', EXPRNODES)
+    opt = _find_class(ctx.parse(OPTIMIZE), 'OptimizeBuiltinCalls', OPTIMIZE)
+    convs = conversion_domain(fv)
+    if not {'s', 'r', 'a'} <= set(convs):
+        raise AnalysisError('FormattedValueNode.find_conversion_func lost one of s/r/a: %s' % convs)
+    cases = strnone_cases(fv, opt, convs)
+    dropped = 0
+    seen = set()
+    paths = {}
+    for key, sample, prob, line, rel in cases:
+        paths[key] = paths.get(key, 0) + 1
+    counted = set()
+    for key, sample, prob, line, rel in cases:
+        if key not in counted:
+            counted.add(key)
+            r.inst(key, sample='%s (%d paths; first: %s)' % (key, paths[key], sample))
+        if 'bare operand' in sample or 'not converted' in sample or 'x itself' in sample:
+            dropped += 1
+        if prob and key not in seen:
+            seen.add(key)
+            more = sum(1 for k, _, p, _, _ in cases if k == key and p) - 1
+            r.violate(key, rel, line, prob + ('' if not more else ' (+%d more paths)' % more))
+    if dropped < 3:
+        raise AnalysisError('the str() elision paths were not found (%d): the model of the formatting functions is out of date' % dropped)
+    ptree = ast.parse(STRNONE_POSITIVE)
+    pc = strnone_cases(ptree.body[0], ptree.body[1], conversion_domain(ptree.body[0]))
+    bad = {k for k, _, p, _, _ in pc if p}
+    r.positive_control(bad == {'ExprNodes.FormattedValueNode.analyse_types:conv=None', 'ExprNodes.FormattedValueNode.analyse_types:conv=s',
+                               'ExprNodes.FormattedValueNode.generate_result_code:conv=s', 'Optimize.OptimizeBuiltinCalls.visit_FormattedValueNode:conv=r'},
+                       'str-typed operand treated as text without excluding None; !r value replaced by str()')
     return r
